@@ -5,6 +5,11 @@ import (
 	"reflect"
 )
 
+// c05Err: an error type whose method dereferences its receiver.
+type c05Err struct{ msg string }
+
+func (e *c05Err) Error() string { return e.msg }
+
 type c05Panic struct {
 	ev  any
 	ht  reflect.Type
@@ -220,9 +225,19 @@ func harnessC05PanicAfterCancel() {
 	bus := New(opts...)
 	var cancelCur context.CancelFunc
 	cancels := vBool()
+	pvKind := vPick(4) // what the handler panics with: a string, an error, a typed nil error, a struct
 	body := func() {
 		if cancels && cancelCur != nil {
 			cancelCur()
+		}
+		switch pvKind {
+		case 1:
+			panic(errInjected)
+		case 2:
+			var e *c05Err // a nil pointer inside a non-nil error value
+			panic(error(e))
+		case 3:
+			panic(c05Panic{})
 		}
 		panic("gave up")
 	}
